@@ -1,6 +1,8 @@
 package ssaexec
 
 import (
+	"go/types"
+	"math"
 	"strconv"
 	"unicode"
 
@@ -8,7 +10,81 @@ import (
 )
 
 
+const objPath = "github.com/risor-io/risor/object"
+
+// newStructPtr allocates a zeroed struct of a named type and sets fields by name.
+func (m *Machine) newStructPtr(pkgPath, typeName string, fields map[string]value) *value {
+	pkg := m.eng.pkgByPath[pkgPath]
+	if pkg == nil {
+		panic(unsupported("package not loaded: " + pkgPath))
+	}
+	tn := pkg.Type(typeName)
+	if tn == nil {
+		panic(unsupported("type not found: " + pkgPath + "." + typeName))
+	}
+	st := tn.Type().Underlying().(*types.Struct)
+	sv := zero(st).(structure)
+	for i := 0; i < st.NumFields(); i++ {
+		if v, ok := fields[st.Field(i).Name()]; ok {
+			sv[i] = v
+		}
+	}
+	var cell value = sv
+	return &cell
+}
+
+var mathPub1 = map[string]func(float64) float64{
+	"Floor": math.Floor, "Ceil": math.Ceil, "Trunc": math.Trunc, "Sqrt": math.Sqrt, "Exp": math.Exp, "Log": math.Log,
+	"Log2": math.Log2, "Log10": math.Log10, "Sin": math.Sin, "Cos": math.Cos, "Tan": math.Tan, "Round": math.Round,
+	"Cbrt": math.Cbrt, "Exp2": math.Exp2, "Asin": math.Asin, "Acos": math.Acos, "Atan": math.Atan, "Sinh": math.Sinh,
+	"Cosh": math.Cosh, "Tanh": math.Tanh, "RoundToEven": math.RoundToEven, "Log1p": math.Log1p, "Expm1": math.Expm1,
+}
+
+var mathPub2 = map[string]func(float64, float64) float64{
+	"Pow": math.Pow, "Mod": math.Mod, "Max": math.Max, "Min": math.Min, "Atan2": math.Atan2, "Hypot": math.Hypot,
+	"Remainder": math.Remainder, "Dim": math.Dim, "Copysign": math.Copysign,
+}
+
+func registerMath() {
+	for n, f := range mathPub1 {
+		name, fn := n, f
+		externals["math."+name] = func(m *Machine, fr *frame, a []value) value {
+			if c, ok := a[0].(float64); ok {
+				return fn(c)
+			}
+			return fromTerm(m.F().UF("math_"+name, smt.F64, a[0].(*Sym).T), true)
+		}
+	}
+	for n, f := range mathPub2 {
+		name, fn := n, f
+		externals["math."+name] = func(m *Machine, fr *frame, a []value) value {
+			x, ok1 := a[0].(float64)
+			y, ok2 := a[1].(float64)
+			if ok1 && ok2 {
+				return fn(x, y)
+			}
+			return fromTerm(m.F().UF("math_"+name, smt.F64, m.floatTerm(a[0], 64), m.floatTerm(a[1], 64)), true)
+		}
+	}
+}
+
 func registerMisc() {
+	registerMath()
+	// risor-specific stubs (DESIGN §2.3): fresh allocation instead of indexing the
+	// 256-entry caches with a symbolic value; pointer identity of small ints is
+	// not observable by scripts.
+	externals[objPath+".NewInt"] = func(m *Machine, fr *frame, a []value) value {
+		if _, ok := a[0].(*Sym); !ok {
+			return fallthroughExt{}
+		}
+		return m.newStructPtr(objPath, "Int", map[string]value{"value": a[0]})
+	}
+	externals[objPath+".NewByte"] = func(m *Machine, fr *frame, a []value) value {
+		if _, ok := a[0].(*Sym); !ok {
+			return fallthroughExt{}
+		}
+		return m.newStructPtr(objPath, "Byte", map[string]value{"value": a[0]})
+	}
 	regUnicode()
 	externals["strconv.FormatFloat"] = func(m *Machine, fr *frame, a []value) value {
 		f, ok := a[0].(float64)
